@@ -42,7 +42,7 @@ LEVEL_NOTE = (
 RULE = (
     "all sequences of builder operations up to the plan's length over {add_task(kind, preds), replace_task, "
     "insert_workflow(menu workflow, preds), wb + wf, Workflow + wf, insert_context} with kind in {plain, "
-    "plain+static input, context-first, context-first+static input}, preds = None | bare task | ordered list of "
+    "plain+2 static inputs, context-first, context-first+2 static inputs}, preds = None | bare task | ordered list of "
     "<= 2 (<= 3 in plan add3) distinct existing tasks; state = operation sequence, transition = one operation; "
     "a case is non-trivial when the workflow has one sink and at least one execution was compared with the "
     "reference evaluation; the bare-task form is checked as a transition and merged with the one-element-list form; "
@@ -55,7 +55,7 @@ ASSUMPTIONS = [
     "predecessor arguments of add_task/insert_workflow are existing, distinct tasks; menu workflows use fresh tasks",
     "a refused insert_workflow (N:M, ValueError) ends the sequence; executing a workflow with != 1 sink must refuse "
     "with ValueError (counted, nothing else demanded)",
-    "static inputs of the execution families are strings 's<k>' (never equal to a dask key); other value shapes "
+    "static inputs of the execution families are strings 's<k>', 'r<k>' (never equal to a dask key); other value shapes "
     "are covered by the static value family only",
     "completion orders are explored at the dask scheduler loop (dask.local.queue_get); dask itself is trusted to "
     "hand a finished task's value to its dependents",
